@@ -1,8 +1,9 @@
 (* ---- component cmp (C15) ----
    line = <case tokens> <impl_out>   ->   "<model_out> <oracle verdict on impl_out>"
 
-   S w a b            six results  < <= > >= == !=  of String, of StringView, and  < <= > >=  of the
-                      (const Char_T * ) overloads ("-" when b holds a NUL):   xxxxxx/xxxxxx/xxxx
+   S w a b            six results  < <= > >= == !=  of String OP String, StringView OP StringView, String OP (const Char_T * ),
+                      StringView OP (const Char_T * ) -- the C string is b cut at its first NUL:   xxxxxx/xxxxxx/xxxxxx/xxxxxx
+   I w a b            HAItem_T and HLItem_T with keys a, b:  < > <= >= ==                          xxxxx/xxxxx
    T w a b c          the six String results for (a,b), (b,c), (a,c):          xxxxxx/xxxxxx/xxxxxx
    V w va vb          Value  < > <= >= ==                                      xxxxx
    N dir list         Array<SizeT64>::Sort               -> list
@@ -70,16 +71,23 @@ let comp_cmp line =
   match tokens line with
   | ["S"; w; a; b; out] ->
     let w = n_of_string w and a = parse_list a and b = parse_list b in
-    let has_nul = List.exists (fun u -> u = N0) b in
-    let m = (match str_ops w a b with
-        | Some g -> let s = string_of_bits g in
-          s ^ "/" ^ s ^ "/" ^ (if has_nul then "-" else String.sub s 0 4)
-        | None -> "OOB") in
+    (* groups 1, 2: object right-hand side; groups 3, 4: (const Char_T * ) right-hand side = b cut at its first NUL *)
+    let bs o = (match o with Some g -> string_of_bits g | None -> "OOB") in
+    let so = bs (str_ops w a b) and co = bs (cstr_ops w a b) in
+    let m = so ^ "/" ^ so ^ "/" ^ co ^ "/" ^ co in
     let verdict = (match split_on '/' out with
-        | [g1; g2; g3] when String.length g1 = 6 && String.length g2 = 6 ->
+        | [g1; g2; g3; g4] when List.for_all (fun g -> String.length g = 6) [g1; g2; g3; g4] ->
           str_pair_oracle w a b (bits_of_string g1) && str_pair_oracle w a b (bits_of_string g2)
-          && (if has_nul then g3 = "-"
-              else String.length g3 = 4 && str_pair_oracle w a b (bits_of_string (g3 ^ String.sub g1 4 2)))
+          && cstr_pair_oracle w a b (bits_of_string g3) && cstr_pair_oracle w a b (bits_of_string g4)
+        | _ -> false) in
+    m ^ " " ^ fmt_bool verdict
+  | ["I"; w; a; b; out] ->
+    let w = n_of_string w and a = parse_list a and b = parse_list b in
+    let io = (match item_ops w a b with Some g -> string_of_bits g | None -> "OOB") in
+    let m = io ^ "/" ^ io in
+    let verdict = (match split_on '/' out with
+        | [g1; g2] when String.length g1 = 5 && String.length g2 = 5 ->
+          item_pair_oracle w a b (bits_of_string g1) && item_pair_oracle w a b (bits_of_string g2)
         | _ -> false) in
     m ^ " " ^ fmt_bool verdict
   | ["T"; w; a; b; c; out] ->
